@@ -76,6 +76,7 @@ TABLE = {
     "dup2": W(292, "dupfd", real=(3, 15, 16, 17)), "dup3": W(292, "dupfd", real=(3, 15, 16, 17)),
     "dup3_nocloexec": W(292, "dupfd", real=(3, 15, 16, 17)),
     "fcntl_get_file_status": W(72, "flags"), "fcntl_set_file_status": W(72, "unit"),
+    "fcntl_dupfd_cloexec": W(72, "fd", real=(3, 16)),
     "get_dents": W(217, "count_rw"), "get_uid": W(102, "u32"),
     "mkdir": W(258, "unit"), "mkdir_at": W(258, "unit"),
     "mmap": W(9, "addr"), "munmap": W(11, "unit"),
